@@ -173,6 +173,18 @@ def run(prog, chk):
                         if root_edge is not None:
                             avoid = avoid | {(root_edge, 0)}
                     if f.find_path(f.node_pos(s.node), {f.exit_pos()}, avoid=avoid) is not None:
+                        # a `while(node)` walk whose first test cannot fail (the node is the non-null parent): the only rebal-free way out
+                        # would be to skip the loop at once.  Then: no rebal-free path that does not pass the head, and none from the body.
+                        entered = None
+                        for c_, v_, lb_ in rebal_loops(f):
+                            for u_ in lb_:
+                                bu = f.blocks[u_]
+                                if bu.get("tk") in ("WhileStmt", "ForStmt") and bu.get("cond") is not None and q.loop_entered(f, u_, lb_):
+                                    entered = (u_, bu["succ"][0])
+                        if entered is not None and \
+                           f.find_path(f.node_pos(s.node), {f.exit_pos()}, avoid=avoid | {(entered[0], 0)}) is None and \
+                           f.find_path((entered[1], 0), {f.exit_pos()}, avoid=avoid, after_src=False) is None:
+                            continue
                         okp = False
                 if okp:
                     chk.ok("C01.c", f, "every non-root insertion path runs the rebalancing walk", "%s:%s" % (f.file, f.line), "MPT from `*cell = item`", evals=2)
@@ -252,6 +264,10 @@ def subtree_start(prog, chk):
                     cell = q.no_casts(q.xr(f, args[0], defs))
                     par = q.no_casts(q.xr(f, args[1], defs))
                     key = q.no_casts(f.r(args[2]))
+                    hinted = f.short == "insert" and len(f.params) == 3 and f.params[0]["t"].endswith("Iterator &")
+                    if hinted and cell != "&this->root":
+                        chk.ok("C01.i", f, "subtree start in the hinted insert", f.where(c), "decided by C01.e (exhaustive ordering enumeration)", nontrivial=False)
+                        continue
                     if cell == "&this->root":
                         if q.is_zero(f, args[1]):
                             chk.ok("C01.i", f, "descent from the root", f.where(c), "insert(&root, 0, ...)", nontrivial=False)
